@@ -349,6 +349,28 @@ def run(ctx):
                     r6.bad('offset-independent-of-bounds', 'the byte offset passed down for an array element no longer accumulates the enclosing offset', loc=fn.loc(b))
 
 
+    # ------------------------------------------------------------------ R7 binding table
+    r7 = ctx.rule('C07.R7', 'the I/O binding table is only ever extended by the bind functions: the cycle I/O passes read it and never take, clear or replace it', floor=3, floor_what='binding writers')
+    from ..cg import field_writes
+    allowed = re.compile(r'trust_runtime::io::IoInterface::(bind\w*|new|default)$|<trust_runtime::io::IoInterface as core::(default::Default|clone::Clone)>::')
+    n = 0
+    for k in sorted(fx.fns):
+        if '::tests::' in k or not k.startswith(('trust_runtime', '<trust_runtime')):
+            continue
+        w, mb = field_writes(fx.fns[k])
+        hit = [ch for ch in (w | mb) if any(f.endswith('IoInterface.bindings') for f in ch)]
+        if not hit:
+            continue
+        n += 1
+        r7.saw()
+        short = k.split('trust_runtime::')[-1]
+        if allowed.search(k.split('::{closure')[0]):
+            r7.ok('binding-writer|%s' % short)
+        else:
+            r7.bad('binding-writer|%s' % short, '%s writes or mutably borrows IoInterface.bindings: outside the bind functions the table must only be read (a take / clear that is not undone on an error exit leaves every later cycle without input latching and output encoding, silently)' % short,
+                   loc='%s:%d' % (fx.fns[k]['file'], fx.fns[k]['line']))
+
+
 def _type_rows(fx, fid, inner_is_value=True):
     """{TYPE: set(of (pattern value variants), (constructed value variants))} from a match on TypeId consts with nested value matches"""
     rows = {}
